@@ -21,7 +21,7 @@ EXPLANATION = (
     "the owner set under R06.1 (I2), Column equality includes the owner object so that same-named columns of different sub-queries stay "
     "distinct (I5); R06.5 a dataset node is removed from the combined graph only when nothing at all is attached to it (degree 0), so no "
     "column is left without its owner (= R03.3); R06.6 result accessors are pure (= R11.3: a memo ignoring the flags returns paths ending at "
-    "sub-query columns). Does not decide: that the table graph connects the owners of the first and last column of each path (needs values)."
+    "sub-query columns). R06.7 the table-level role predicates the paths are compared with partition the tables as C03 requires (= R03.1). Does not decide: that the table graph connects the owners of the first and last column of each path (needs values)."
 )
 RULE_TEXT = "one obligation per owner store x insertion pair, per result insertion, per model class, per removal site"
 
@@ -145,3 +145,8 @@ def rules(ctx: Ctx) -> None:
     for o in sub2.obligations:
         if o.rule == "R11.3":
             ctx.obligations.append(replace(o, rule="R06.6"))
+    # R06.7: the table-level answer the column paths are compared with: every table with lineage is source, intermediate or target
+    # (a path may end in an intermediate table only if the intermediate set is not emptied by unrelated tags) (= R03.1)
+    from .common import import_rules
+
+    import_rules(ctx, "C03", {"R03.1": "R06.7"})
